@@ -123,9 +123,9 @@ def run_slice(prog, ob, slice_dom, checks_on, qdir, tier_timeout, validate_point
             txt = solve.to_smt2(base + [extra])
             path = os.path.join(qdir, '%s_%s.smt2' % (tag, label))
             open(path, 'w').write(txt)
-            r = solve.race(path, tmo, solvers=ob.solvers or ('cvc5', 'z3new', 'z3'), need_all=cross_check)
+            r = solve.race(path, tmo, solvers=ob.solvers or (solve.PORTFOLIO_CROSS if cross_check else solve.PORTFOLIO), need_all=cross_check)
             r.text = txt
-        queries.append({'query': label, 'verdict': r.verdict, 'solver': r.solver, 'secs': round(r.secs, 3), 'wanted': want,
+        queries.append({'query': label, 'verdict': r.verdict, 'solver': r.solver, 'secs': round(r.secs, 3), 'wanted': want, 'cross_check': r.detail if cross_check else None,
                         'all': {k: (v[0], round(v[1], 2)) for k, v in (r.all_answers or {}).items()}})
         return r
     # translator validation on concrete points (before the expensive queries)
